@@ -256,7 +256,7 @@ const char *PROP = "C02";
 struct case_budget chk_budget(const char *tier)
 {
         struct case_budget b = { N_LANES + 360 + N_ALPHA + N_DUPS, 0 };
-        b.random = strcmp(tier, "thorough") == 0 ? 26000 : 700;
+        b.random = strcmp(tier, "thorough") == 0 ? 1500000 : 40000;
         return b;
 }
 void chk_run_case(uint64_t seed, long c, bool is_sweep)
